@@ -102,11 +102,6 @@ def zone(draw, name, policies, basic):
             step = draw(st.sampled_from([-60, 60, 30, -30, 120, 15, 0, 0, 45 if not basic else 60]))
             off = max(-959, min(959, off + step))
         kind = draw(st.sampled_from(["-", "fixed", "pol", "pol", "pol"] if policies else ["-", "fixed"]))
-        if basic and kind == "pol" and i > 0:
-            # known finding (KNOWN_FINDINGS.txt, C03 basic-era-change-into-policy): BasicZoneProcessor misplaces an era change at a
-            # year boundary into a rule-based era; excluded by construction and counted
-            kind = "-"
-            features.add("excluded:basic-era-change-into-policy")
         if kind == "-":
             rules, fmt = "-", draw(st.sampled_from(["LMT", "XST", "ABCD", "ZONE5", "SIXSIX"]))
         elif kind == "fixed":
